@@ -328,6 +328,28 @@ def generate(repo, g):
     g.define('checkFsSteps', 'List String', lean_list(steps),
              'jedi/inference/references.py:_check_fs, statement by statement')
 
+    # ---- _try_to_skip_duplicates: statement by statement (Model/Search.skipLoop is its transcription: the key of
+    # a result is the tree-name OBJECT (identity; parso nodes define no __eq__), modules are keyed by module_path)
+    sd = proj.find('_try_to_skip_duplicates.wrapper')
+    want = ['found_tree_nodes = []',
+            'found_modules = []',
+            'for definition in func(*args, **kwargs):\n'
+            '    tree_node = definition._name.tree_name\n'
+            '    if tree_node is not None and tree_node in found_tree_nodes:\n'
+            '        continue\n'
+            "    if definition.type == 'module' and definition.module_path is not None:\n"
+            '        if definition.module_path in found_modules:\n'
+            '            continue\n'
+            '        found_modules.append(definition.module_path)\n'
+            '    yield definition\n'
+            '    found_tree_nodes.append(tree_node)']
+    got = [u(x) for x in sd.body]
+    if got != want:
+        raise TieBroken('project.py: _try_to_skip_duplicates.wrapper is not the modelled loop (key = the tree name '
+                        'object, modules by module_path)', repr(got))
+    g.define('skipDuplicatesKey', 'List String', lean_list(['definition._name.tree_name', 'definition.module_path']),
+             'jedi/api/project.py:_try_to_skip_duplicates (what two results are compared by: the tree name object - '
+             'node identity - and, for modules, the module path)')
     for s, d in [(refs, 'recurse_find_python_folders_and_files'), (refs, 'gitignored_paths'),
                  (refs, 'expand_relative_ignore_paths'), (refs, 'search_in_file_ios'), (refs, '_check_fs'),
                  (fio, 'FolderIO.walk'), (helpers, 'split_search_string'), (helpers, 'get_module_names'),
